@@ -125,6 +125,14 @@ impl TimeoutCounter {
     }
 }
 
+/// `now + duration`, where a duration too large to be represented as an `Instant`
+/// (e.g. `Duration::MAX`) means "never" instead of panicking
+fn deadline_after(duration: Duration) -> Instant {
+    let now = Instant::now();
+    now.checked_add(duration)
+        .unwrap_or_else(|| now + Duration::from_secs(86400 * 365 * 30))
+}
+
 pub(crate) struct ClientLoop {
     rx: crate::channel::Receiver<Command>,
     writer: FrameWriter,
@@ -279,7 +287,7 @@ impl ClientLoop {
 
         io.write(bytes, self.decode.physical).await?;
 
-        let deadline = Instant::now() + request.timeout;
+        let deadline = deadline_after(request.timeout);
 
         // loop until we get a response with the correct tx id or we timeout
         let response = loop {
@@ -359,7 +367,7 @@ impl ClientLoop {
         &mut self,
         duration: Duration,
     ) -> Result<(), StateChange> {
-        let deadline = Instant::now() + duration;
+        let deadline = deadline_after(duration);
         tokio::select! {
             _ = tokio::time::sleep_until(deadline) => {
                 // Timeout occurred
